@@ -648,9 +648,14 @@ class Reaction(Object):
         # make the old genes aware they are no longer involved in this reaction
         for g in old_genes.difference(new_genes):
             try:
+                known = self in g._reaction
                 self._dissociate_gene(g)
-                if context:
+                if context and known:
                     context(partial(self._associate_gene, g))
+                elif context:
+                    # a reaction that had been removed from the model: the gene
+                    # did not know it and must not learn of it when undoing
+                    context(lambda g=g: self._genes.add(g))
             except KeyError:
                 warn(f"could not remove old gene {g.id} from reaction {self.id}")
             if g in self._genes:  # if an old gene is still a new gene
